@@ -450,7 +450,84 @@ def handover_case(item):
     return res
 
 
+REQ_DO = scen.TRACE_HDR + 'echo "S $1 $$ $PPID" >&9\n%(pre)s\necho "Q $1 $$ %(dep)s" >&9\nset +e\n%(cmd)s %(dep)s\nrc=$?\nset -e\necho "RC $1 $$ $rc %(dep)s" >&9\n[ $rc = 0 ] || exit $rc\ncat %(dep)s > "$3"\necho "E $1 $$ 0" >&9\n'
+
+
+def rerequest_case(item):
+    """Within one run: T is found clean (checked), then one job force-rebuilds it (`redo T`, a slow script) while another job asks for
+    it again with redo-ifchange.  A request that begins after T's script has started cannot return before that script has ended
+    and its result is recorded: the decision would have been taken while the execution was under way.  Each execution of T writes
+    a new generation number, so a requester that did not wait also shows the old generation."""
+    _, variant, pause, j, seed = item
+    files = {
+        'T.do': scen.TRACE_HDR + 'echo "S $1 $$ $PPID" >&9\nn=$(( $(cat gen 2>/dev/null || echo 0) + 1 ))\necho $n > gen\nsleep 0.45\necho "gen $n" > "$3"\necho "E $1 $$ 0" >&9\n',
+        'a.do': REQ_DO % dict(pre='true', cmd='redo-ifchange', dep='T'),
+        'b.do': REQ_DO % dict(pre='sleep 0.05', cmd='redo', dep='T'),
+        'c.do': REQ_DO % dict(pre='sleep %s' % pause, cmd='redo-ifchange', dep='T'),
+        'all.do': scen.TRACE_HDR + 'echo "S $1 $$ $PPID" >&9\nredo-ifchange a\nredo-ifchange b c\necho "E $1 $$ 0" >&9\n',
+    }
+    pj = scen.Project(files, 'c06q')
+    anoms = []
+    obs = dict(rerequest_rounds=1, requests_begun_during_an_execution=0)
+    try:
+        r0, _ = pj.run(['redo-ifchange', 'T'])
+        if r0.rc != 0:
+            return dict(verdict='inconclusive', why='pre-build failed', sample=dict(item=list(item)))
+        open(pj.trace, 'w').close()
+        if variant == 'one-tree':
+            res = [pj.run(['redo', '-j%d' % j, 'all'], timeout=60)[0]]
+        else:
+            # two top-level commands of different runs: the first checks T and then waits; the second force-rebuilds it meanwhile
+            res = pj.run_many([dict(argv=['redo', '-j%d' % j, 'all']), dict(argv=['redo', 'T'], delay=0.12)], timeout=60)
+        if any(r.status != 'exit' for r in res):
+            return dict(verdict='inconclusive', why='re-request round did not end', sample=dict(item=list(item)))
+        for r in res:
+            if r.rc != 0:
+                anoms.append(dict(key='rerequest:nonzero', what='exit %s: %s' % (r.rc, r.err[-200:].replace('\n', ' | '))))
+        lines = [l.split(' ') for l in pj.trace_text().split('\n') if l]
+        # executions of T as intervals over trace positions
+        runs, open_ = [], {}
+        for i, f in enumerate(lines):
+            if f[0] == 'S' and f[1] == 'T':
+                open_[f[2]] = i
+            elif f[0] == 'E' and f[1] == 'T' and f[2] in open_:
+                runs.append((open_.pop(f[2]), i))
+        reqs = {}
+        for i, f in enumerate(lines):
+            if f[0] == 'Q':
+                reqs[(f[1], f[2])] = [i, None]
+            elif f[0] == 'RC' and (f[1], f[2]) in reqs:
+                reqs[(f[1], f[2])][1] = i
+        for (who, pid), (q, rc) in sorted(reqs.items()):
+            for (s_, e_) in runs:
+                if s_ < q < e_:
+                    obs['requests_begun_during_an_execution'] += 1
+                    if rc is not None and rc < e_:
+                        anoms.append(dict(key='decided-during-execution:request-returned-before-the-script-ended',
+                                          what='%s asked for T after its script had started (trace position %d > %d) and got its answer at %d, before the script ended at %d'
+                                               % (who, q, s_, rc, e_)))
+        gen = (common.read_file(os.path.join(pj.top, 'gen')) or b'0').decode().strip()
+        cfile = (common.read_file(os.path.join(pj.top, 'c')) or b'').decode().strip()
+        tfile = (common.read_file(os.path.join(pj.top, 'T')) or b'').decode().strip()
+        if not anoms and tfile != 'gen %s' % gen:
+            anoms.append(dict(key='rerequest:target-not-from-last-execution', what='T holds %r after %s executions' % (tfile, gen)))
+        fmap = fid_map(pj.top) or {}
+        ma, st = monitor(pj.trace_text(), fmap)
+        anoms.extend(ma)
+        obs.update(st)
+    finally:
+        pj.close()
+    res = dict(verdict='violated' if anoms else 'held', nontrivial=obs['requests_begun_during_an_execution'] > 0, shape=common.shash(list(item)),
+               sample=dict(kind='rerequest', variant=variant, pause=pause, j=j), obs=obs, sets=dict(abort_modes=['rerequest:' + variant]))
+    if anoms:
+        res['violations'] = anoms[:4]
+        res['replay'] = dict(kind='rerequest', item=list(item))
+    return res
+
+
 def dispatch(item):
+    if item[0] == 'rerequest':
+        return rerequest_case(item)
     if item[0] == 'handover':
         return handover_case(item)
     return case(item)
@@ -465,7 +542,7 @@ RULE = ('contention rounds on one project (6-12 shared leaves under 2-4 groups, 
         '(2) hook records: a lock acquired while another process later proves to have held it, a script record while no process holds the '
         "target's lock, a lock released after the job ended but before the new state was committed; (3) /proc/locks sampled every 15 ms: a "
         'script alive across a sample must be covered by a WRITE lock on its byte; (4) hand-over scenario: a later redo-ifchange waiting for a '
-        'target being built must not execute anything again. Non-trivial: >=4 scripts and >=4 lock acquisitions observed (hand-over: the '
+        'target being built must not execute anything again; (5) re-request scenario: a target found clean earlier in the run is force-rebuilt by one job (slow script) while another job asks for it again: a request that begins after the script has started (trace order) cannot be answered before the script has ended. Non-trivial: >=4 scripts and >=4 lock acquisitions observed (hand-over: the '
         'second invocation really waited). Distinct: parameter tuple incl. seed.')
 ASSUME = ['two sequential builds of one target by different invocations are legal (run ids differ); only overlap and decide-before-record are flagged',
           'killing only a redo parent while its scripts live on is not judged (no user-space lock can cover orphans)',
@@ -489,6 +566,11 @@ def main(tier):
             for gap in (0.15, 0.25):
                 for j2 in (1, 3):
                     items.append(('handover', d, gap, j2, rep))
+    for rep in range(1 if quick else 8):
+        for variant in ('one-tree', 'two-commands'):
+            for pause in ('0.2', '0.3'):
+                for j in (3, 4):
+                    items.append(('rerequest', variant, pause, j, rep))
     rnd.shuffle(items)
     for r in common.pmap(dispatch, items, procs=5, deadline=t0 + budget):
         col.add(r)
